@@ -87,7 +87,7 @@ def derive_dest(rng, snap):
             if m < 0.3: out.append(dict(e))
             elif m < 0.4: out.append(dict(e, b=[(x + 1) % 4 for x in b]))                      # stale: same size and mtime
             elif m < 0.5: out.append(dict(e, b=[(x + 1 + i % 2) % 4 for i, x in enumerate(b)], mtime=3000))
-            elif m < 0.58: out.append(dict(e, b=[7] * len(b), mtime=3000))
+            elif m < 0.58: out.append(dict(e, b=[7] * max(0, len(b) + rng.choice([0, 0, 1, 2, -1])), mtime=3000))  # old non-zero bytes, same or other size
             elif m < 0.66: out.append(dict(e, b=b[:rng.randint(0, max(0, len(b) - 1))], mtime=rng.choice([3000, e["mtime"]])))
             elif m < 0.74: out.append(dict(e, b=b + [rng.choice([0, 5])] * rng.randint(1, 3), mtime=rng.choice([3000, e["mtime"]])))
             elif m < 0.8:
@@ -429,7 +429,13 @@ def run(ctx):
                 "disagreements_checked": len(mism) + len(viol), "model_impl_mismatches": len(mism), "oracle_violations": len([x for x in viol if x[2] != "__corr__"]),
                 "code_cfg": meta})
     real = [x for x in viol if x[2] != "__corr__"]
-    for what, wit, sig in real[:40]:
+    # report a few of every source (hostile / model / e2e), not only the first ones found
+    shown, per = [], {}
+    for x in real:
+        k = str(x[1].get("case", "")).split(" ")[0]
+        per[k] = per.get(k, 0) + 1
+        if per[k] <= 15: shown.append(x)
+    for what, wit, sig in shown:
         ctx.violation(what, wit, signature=sig)
     corr = [x for x in viol if x[2] == "__corr__"]
     if (mism or corr) and not real:
